@@ -44,57 +44,75 @@ func cmdStress(args []string) {
 		{Len: 5, AllowChars: o("abcé"), RequireSets: [][]int{o("xy"), o("yz")}, ExcludeChars: o("c")},
 		{Len: 20, Allow: int(spg.Letters | spg.Digits), Require: int(spg.Uppers | spg.Lowers | spg.Digits)},
 	}
+	// references first, single-threaded (they touch the MaxTrials/MaxFailRate globals and the draw hook)
+	sharedR := make([]spg.CharRecipe, len(chars))
+	refCells := make([]*CellEv, len(chars))
+	beforeS := make([]CharSpec, len(chars))
 	for ci := range chars {
 		chars[ci].norm()
-		shared := chars[ci].Recipe() // one value, used by every goroutine
-		before := CharSpecOf(shared)
+		sharedR[ci] = chars[ci].Recipe()
+		beforeS[ci] = CharSpecOf(sharedR[ci])
 		sc := Scenario{Kind: "char", Char: &chars[ci], Mode: "paths", Paths: 0, Tag: "stress"}
-		evs := charCellEvents(ci, sc, 1, &shared) // the reference: single-threaded Alphabet/Entropy/count
-		cell := evs[0].(*CellEv)
-		results := make([][]GenRes, *G)
-		var wg sync.WaitGroup
-		stop := time.Now().Add(time.Duration(*ms) * time.Millisecond)
-		for g := 0; g < *G; g++ {
-			wg.Add(1)
-			go func(g int) {
-				defer wg.Done()
-				for i := 0; time.Now().Before(stop); i++ {
-					switch i % 4 {
-					case 0, 1:
-						p, err := shared.Generate()
-						if len(results[g]) < *keep {
-							results[g] = append(results[g], ResOf(p, err, nil))
-						}
-					case 2:
-						e := shared.Entropy()
-						if len(results[g]) < *keep {
-							results[g] = append(results[g], GenRes{Kind: "entropy", Ent: DyadicOf(e), Toks: []TokJ{}, Str: []int{}})
-						}
-					case 3:
-						a := shared.Alphabet()
-						_ = shared.SuccessProbability()
-						if len(results[g]) < *keep {
-							results[g] = append(results[g], GenRes{Kind: "alphabet", Str: CPs(a), Toks: []TokJ{}, Ent: DyadicOf(0)})
+		refCells[ci] = charCellEvents(ci, sc, 1, &sharedR[ci])[0].(*CellEv)
+	}
+	var outer sync.WaitGroup
+	var emitMu sync.Mutex
+	for ci := range chars {
+		ci := ci
+		outer.Add(1)
+		go func() {
+			defer outer.Done()
+			shared := sharedR[ci] // one value, used by every goroutine; the recipes are exercised at the same time
+			before := beforeS[ci]
+			cell := refCells[ci]
+			results := make([][]GenRes, *G)
+			var wg sync.WaitGroup
+			stop := time.Now().Add(time.Duration(*ms) * time.Millisecond)
+			for g := 0; g < *G; g++ {
+				wg.Add(1)
+				go func(g int) {
+					defer wg.Done()
+					for i := 0; time.Now().Before(stop); i++ {
+						switch i % 4 {
+						case 0, 1:
+							p, err := shared.Generate()
+							if len(results[g]) < *keep {
+								results[g] = append(results[g], ResOf(p, err, nil))
+							}
+						case 2:
+							e := shared.Entropy()
+							if len(results[g]) < *keep {
+								results[g] = append(results[g], GenRes{Kind: "entropy", Ent: DyadicOf(e), Toks: []TokJ{}, Str: []int{}})
+							}
+						case 3:
+							a := shared.Alphabet()
+							_ = shared.SuccessProbability()
+							if len(results[g]) < *keep {
+								results[g] = append(results[g], GenRes{Kind: "alphabet", Str: CPs(a), Toks: []TokJ{}, Ent: DyadicOf(0)})
+							}
 						}
 					}
-				}
-			}(g)
-		}
-		wg.Wait()
-		if !reflect.DeepEqual(before, CharSpecOf(shared)) {
-			cell.Mutated = 1
-		}
-		if hiddenNonNil(shared) {
-			cell.Hidden = 1
-		}
-		emc.Emit(cell)
-		for g := range results {
-			for _, r := range results[g] {
-				emc.Emit(LeafEv{Op: "leaf", D: [][2]int{}, Det: -1, Res: r, PathW: []int{}, Conc: 1, Reads: 1})
+				}(g)
 			}
-		}
-		emc.Emit(map[string]interface{}{"op": "cellend", "id": ci})
+			wg.Wait()
+			if !reflect.DeepEqual(before, CharSpecOf(shared)) {
+				cell.Mutated = 1
+			}
+			if hiddenNonNil(shared) {
+				cell.Hidden = 1
+			}
+			emitMu.Lock()
+			emc.Emit(cell)
+			for g := range results {
+				for _, r := range results[g] {
+					emc.Emit(LeafEv{Op: "leaf", D: [][2]int{}, Det: -1, Res: r, PathW: []int{}, Conc: 1, Reads: 1})
+				}
+			}
+			emc.Emit(map[string]interface{}{"op": "cellend", "id": ci})
+			emitMu.Unlock()
+		}()
 	}
+	outer.Wait()
 	// ---- shared word list, wordlist recipes and separator functions ----
 	words := []string{"one", "two", "three", "kettő", "ice-cream", "zebra", "größe"}
 	sepReq := CharSpec{Len: 2, Allow: int(spg.Digits | spg.Symbols), Require: int(spg.Digits)}
